@@ -191,9 +191,27 @@ func runC08(c *Ctx) {
 			}
 		}
 		c.Obs(n, obs...)
+		// "frames longer than the limit are refused before their body is read": the declared length against the limit in force
+		tooLong := false
+		if strings.HasPrefix(kind, "frame") {
+			limit, declared, have := uint64(262144), uint64(0), false
+			for _, e := range kv {
+				switch {
+				case strings.HasPrefix(e, "max="):
+					limit, _ = strconv.ParseUint(e[4:], 16, 64)
+				case strings.HasPrefix(e, "b="):
+					if b := unhex(e[2:]); len(b) >= 4 {
+						declared, have = uint64(binary.BigEndian.Uint32(b)), true
+					}
+				}
+			}
+			tooLong = have && declared > limit && declared >= 5 && !(strings.Contains(ans, "res=err:") && strings.Contains(ans, " consumed=4 "))
+		}
 		switch {
 		case pan:
 			c.Oracle(n, false, "decoder panicked")
+		case tooLong:
+			c.Oracle(n, false, "long-frame-read: a frame whose declared length exceeds the limit in force was not refused after its 4 length bytes: "+truncs(ans))
 		case alloc > 64*uint64(inputLen)+300000 && !strings.HasPrefix(kind, "frame"):
 			c.Oracle(n, false, fmt.Sprintf("allocated %d bytes for %d input bytes", alloc, inputLen))
 		case strings.HasPrefix(kind, "frame") && alloc > 64*uint64(inputLen)+600000:
